@@ -91,6 +91,18 @@ def _cases(draw):
         for d in range(g.integer(1, 3)):
             inner = {"k": "g", "c": {"name": f"ig{d}_{u}", "label": "IG"}, "ch": [inner]}
         form["nodes"].append({"k": "r", "c": {"name": "or" + u, "label": "OR"}, "ch": [inner]})
+    if g.p("_", 0.06):
+        # trigger sources that cannot host an action: the form must be refused, never converted with the action dropped
+        calcs = [n["c"]["name"] for n, _ in model.walk(form["nodes"]) if n["k"] == "q" and n["c"].get("type") == "calculate" and "name" in n["c"]]
+        vis = [n["c"]["name"] for n, _ in model.walk(form["nodes"]) if n["k"] == "q" and n["c"].get("type") in ("text", "integer") and "name" in n["c"]]
+        kind = g.pick(["geo-on-calculate", "last-saved", "calc-on-calculate"])
+        if kind == "geo-on-calculate" and calcs:
+            form["nodes"].append({"k": "q", "c": {"type": "background-geopoint", "name": "bgx" + str(g.integer(10, 99)), "trigger": "${%s}" % g.pick(calcs)}})
+        elif kind == "calc-on-calculate" and calcs:
+            form["nodes"].append({"k": "q", "c": {"type": "calculate", "name": "tcx" + str(g.integer(10, 99)), "calculation": "1 + 1", "trigger": "${%s}" % g.pick(calcs)}})
+        elif vis:
+            form["nodes"].append({"k": "q", "c": {"type": "calculate", "name": "tlx" + str(g.integer(10, 99)), "calculation": "1 + 1",
+                                                  "trigger": "${last-saved#%s}" % g.pick(vis)}})
     # triggered calculations whose whole text is a boolean alias
     for n, _ in model.walk(form["nodes"]):
         if n["k"] == "q" and "trigger" in n["c"] and "calculation" in n["c"] and g.p("_", 0.2):
